@@ -362,6 +362,10 @@ class SimpleJSONRPCDispatcher(SimpleXMLRPCDispatcher, object):
                     config=config,
                 )
                 _logger.error("Error calling method %s: %s", method, fault)
+                if is_notification:
+                    # A notification is never answered, even in case of error
+                    return None
+
                 return fault.dump()
 
             if is_notification:
